@@ -40,7 +40,7 @@ Inductive tpart := TLit (s : string) | TVar (n : name).
 Inductive expr :=
 | Lit (s : string)            (* a scalar without template actions *)
 | Tmpl (ps : list tpart)      (* text with {{.NAME}} actions *)
-| Sh (text : string)          (* sh: text *)
+| Sh (ps : list tpart)        (* sh: text, itself templated before it runs *)
 | Ref (n : name).             (* ref: .NAME *)
 
 (* e_dir: ast.Var.Dir, set by Vars.Merge for variables that came from an
@@ -125,8 +125,8 @@ Definition eval_entry (w : world) (ldir : string) (e : entry) (st : vars * cache
   | Lit s => (vset (e_name e) s r, c)
   | Tmpl ps => (vset (e_name e) (render ps r) r, c)
   | Ref m => (vset (e_name e) (vgetd m r) r, c)
-  | Sh text =>
-      let '(v, c') := handle_dynamic w text (e_dir e) ldir (env_from_vars w r) c in
+  | Sh ps =>
+      let '(v, c') := handle_dynamic w (render ps r) (e_dir e) ldir (env_from_vars w r) c in
       (vset (e_name e) v r, c')
   end.
 
@@ -136,7 +136,7 @@ Definition entry_value (w : world) (ldir : string) (e : entry) (st : vars * cach
   | Lit s => s
   | Tmpl ps => render ps (fst st)
   | Ref m => vgetd m (fst st)
-  | Sh text => fst (handle_dynamic w text (e_dir e) ldir (env_from_vars w (fst st)) (snd st))
+  | Sh ps => fst (handle_dynamic w (render ps (fst st)) (e_dir e) ldir (env_from_vars w (fst st)) (snd st))
   end.
 
 Definition defines (n : name) (l : layer) : bool :=
@@ -319,7 +319,7 @@ Definition rv_expr (vs : vars) (x : expr) : expr :=
   match x with
   | Lit s => Lit s
   | Tmpl ps => Lit (render ps vs)
-  | Sh t => Sh t
+  | Sh ps => Sh [TLit (render ps vs)]
   | Ref n => Lit (vgetd n vs)
   end.
 
@@ -351,8 +351,8 @@ Fixpoint env_resolve (w : world) (dir : string) (done : vars) (todo : list entry
   | [] => (done, c)
   | e :: rest =>
       match e_expr e with
-      | Sh t =>
-          let '(v, c') := handle_dynamic w t (e_dir e) dir (env_from_vars w (done ++ statics rest)%list) c in
+      | Sh ps =>
+          let '(v, c') := handle_dynamic w (render ps []) (e_dir e) dir (env_from_vars w (done ++ statics rest)%list) c in
           env_resolve w dir (done ++ [(e_name e, v)])%list rest c'
       | Lit s => env_resolve w dir (done ++ [(e_name e, s)])%list rest c
       | _ => env_resolve w dir (done ++ [(e_name e, "")])%list rest c
@@ -464,11 +464,13 @@ Record level := { lv_stmt : list entry; lv_file : list entry; lv_dir : string }.
 Record mflags := {
   fl_snapshot_parent : bool;   (* IncludedTaskfileVars := copy of the PARENT's merged vars *)
   fl_merge_up : bool;          (* the included file's vars are merged into the parent's vars *)
-  fl_include_eager : bool      (* include-statement vars are templated when the file is read *)
+  fl_include_eager : bool;     (* include-statement vars are templated when the file is read *)
+  fl_include_os_first : bool   (* ... against a variable set in which the OS environment overrides the
+                                  including file's vars (only matters together with fl_include_eager) *)
 }.
 
 Definition repaired_flags : mflags :=
-  {| fl_snapshot_parent := false; fl_merge_up := false; fl_include_eager := false |}.
+  {| fl_snapshot_parent := false; fl_merge_up := false; fl_include_eager := false; fl_include_os_first := false |}.
 
 Record vcase := {
   c_os : vars;
@@ -518,46 +520,57 @@ Definition own_chain (c : vcase) : list level := firstn (c_depth c) (c_chain c).
 Definition root_merged (c : vcase) : list entry := emerge (c_root c) (included_files_of (c_chain c)).
 
 (* reader.include: include.Vars templated against os.Environ + the including
-   file's own (unevaluated) vars; a name renders to the RAW text of its definition *)
-Definition raw_parts (parent : list entry) (os : vars) (n : name) : list tpart :=
-  match efind n parent with
-  | Some e => match e_expr e with
-              | Lit s => [TLit s]
-              | Tmpl ps => ps
-              | Sh _ => []
-              | Ref _ => []
-              end
-  | None => match vget n os with Some v => [TLit v] | None => [] end
+   file's own (unevaluated) vars; a name renders to the RAW text of its definition.
+   osfirst: which of the two is merged on top - false: the file's vars override the
+   environment (global vars > OS environment, the documented order); true: the other way round *)
+Definition raw_parts (osfirst : bool) (parent : list entry) (os : vars) (n : name) : list tpart :=
+  let from_parent := match efind n parent with
+                     | Some e => Some (match e_expr e with
+                                       | Lit s => [TLit s]
+                                       | Tmpl ps => ps
+                                       | Sh _ => []
+                                       | Ref _ => []
+                                       end)
+                     | None => None
+                     end in
+  let from_os := match vget n os with Some v => Some [TLit v] | None => None end in
+  match (if osfirst then from_os else from_parent), (if osfirst then from_parent else from_os) with
+  | Some ps, _ => ps
+  | None, Some ps => ps
+  | None, None => []
   end.
 
-Definition prerender_expr (parent : list entry) (os : vars) (x : expr) : expr :=
+Definition prerender_parts (osfirst : bool) (parent : list entry) (os : vars) (ps : list tpart) : list tpart :=
+  flat_map (fun p => match p with
+                     | TLit s => [TLit s]
+                     | TVar n => raw_parts osfirst parent os n
+                     end) ps.
+
+Definition prerender_expr (osfirst : bool) (parent : list entry) (os : vars) (x : expr) : expr :=
   match x with
   | Lit s => Lit s
-  | Tmpl ps => Tmpl (flat_map (fun p => match p with
-                                        | TLit s => [TLit s]
-                                        | TVar n => raw_parts parent os n
-                                        end) ps)
-  | Sh t => Sh t
-  | Ref n => Tmpl (raw_parts parent os n)
+  | Tmpl ps => Tmpl (prerender_parts osfirst parent os ps)
+  | Sh ps => Sh (prerender_parts osfirst parent os ps)
+  | Ref n => Tmpl (raw_parts osfirst parent os n)
   end.
 
-Definition prerender (eager : bool) (parent : list entry) (os : vars) (es : list entry) : list entry :=
+Definition prerender (eager osfirst : bool) (parent : list entry) (os : vars) (es : list entry) : list entry :=
   if eager
-  then map (fun e => {| e_name := e_name e; e_expr := prerender_expr parent os (e_expr e); e_dir := e_dir e |}) es
+  then map (fun e => {| e_name := e_name e; e_expr := prerender_expr osfirst parent os (e_expr e); e_dir := e_dir e |}) es
   else es.
 
 (* Tasks.Merge: task.IncludeVars.Merge(include.Vars) at every level, innermost first *)
-Fixpoint stmts_merged (eager : bool) (os : vars) (parent : list entry) (ch : list level) : list entry :=
+Fixpoint stmts_merged (eager osfirst : bool) (os : vars) (parent : list entry) (ch : list level) : list entry :=
   match ch with
   | [] => []
-  | l :: rest => emerge (stmts_merged eager os (lv_file l) rest) (prerender eager parent os (lv_stmt l))
+  | l :: rest => emerge (stmts_merged eager osfirst os (lv_file l) rest) (prerender eager osfirst parent os (lv_stmt l))
   end.
 
 Definition case_gvars (fl : mflags) (c : vcase) : list entry :=
   emerge (if fl_merge_up fl then root_merged c else c_root c) (c_cli c).
 
 Definition case_incvars (fl : mflags) (c : vcase) : list entry :=
-  stmts_merged (fl_include_eager fl) (c_os c) (c_root c) (own_chain c).
+  stmts_merged (fl_include_eager fl) (fl_include_os_first fl) (c_os c) (c_root c) (own_chain c).
 
 Definition case_incfile (fl : mflags) (c : vcase) : list entry :=
   match own_chain c with
@@ -624,7 +637,7 @@ Definition doc_site_layer (c : vcase) (special : vars) (dir : string) (call task
       {| l_dir := dir; l_entries := included_files_of (own_chain c) |}
   | DIncludeStmt =>
       {| l_dir := c_root_dir c;
-         l_entries := stmts_merged false (c_os c) (c_root c) (own_chain c) |}
+         l_entries := stmts_merged false false (c_os c) (c_root c) (own_chain c) |}
   | DGlobal => {| l_dir := c_root_dir c; l_entries := emerge (c_root c) (c_cli c) |}
   | DGlobalEnv => {| l_dir := c_root_dir c; l_entries := c_genv c |}
   | DSpecial => {| l_dir := c_root_dir c; l_entries := lits special |}
@@ -665,6 +678,8 @@ Record ecase := {
   n_gdot : list vars;           (* dotenv: files of the root Taskfile, in order *)
   n_tdot : list vars;           (* the task's dotenv files, in order *)
   n_tenv : vars;                (* the task's env: *)
+  n_genv_sh : list name;        (* names of n_genv / n_tenv written as  {sh: echo VALUE}  instead of VALUE *)
+  n_tenv_sh : list name;
   n_probes : list name
 }.
 
@@ -693,12 +708,18 @@ Definition setup_genv (env_beats_dot gdot_first : bool) (genv : vars) (gdot : li
   fold_left (fun acc kv => if env_beats_dot && vmem (fst kv) acc then acc else vset (fst kv) (snd kv) acc)
             (dot_merge gdot_first gdot) genv.
 
+(* literal entries, except the names of shs, which are sh: echo VALUE *)
+Definition lits_sh (shs : list name) (r : vars) : list entry :=
+  map (fun kv => {| e_name := fst kv;
+                    e_expr := if smem (fst kv) shs then Sh [TLit ("echo " ++ snd kv)] else Lit (snd kv);
+                    e_dir := "" |}) r.
+
 Definition ectx (env_beats_dot gdot_first : bool) (e : ecase) : tctx :=
   {| x_name := "t"; x_special := [];
-     x_genv := lits (setup_genv env_beats_dot gdot_first (n_genv e) (n_gdot e));
+     x_genv := lits_sh (n_genv_sh e) (setup_genv env_beats_dot gdot_first (n_genv e) (n_gdot e));
      x_gvars := []; x_incvars := []; x_incfile := []; x_call := []; x_tvars := [];
      x_root_dir := ""; x_task_dir := ""; x_dir_tmpl := None;
-     x_tdot := n_tdot e; x_tenv := lits (n_tenv e); x_matrix := None;
+     x_tdot := n_tdot e; x_tenv := lits_sh (n_tenv_sh e) (n_tenv e); x_matrix := None;
      x_vprobes := n_probes e; x_eprobes := n_probes e; x_defers := [] |}.
 
 (* ---------- monitors of C11 ---------- *)
